@@ -9,6 +9,7 @@ case's order, with the case's `id_attr`) -- and loaded by the code under test:
   load   `ReferenceDatabase.load_from_dir(dir)` (or load_genomeset + load_signatures + the constructor),
          then `jaccarddist_matrix(queries, db.signatures, ref_indices=db.sig_indices, chunksize=c)` and
          `gambit.query.query(db, queries, params)`;
+  seq    a script of such calls over shared objects (see STATE AND ALIASING below);
   dir    a directory whose entries come from a grammar of names (a.gdb, .gdb, x.tar.gs, y.GS, a..h5,
          b.db., duplicates, sub-directories named like database files, genome databases named like
          signature files ...): `locate_files` and `load_from_dir`;
@@ -95,6 +96,80 @@ predicate judged there, "M" = also compared with the extracted model).  "+" mark
                                                   was built and was removed again IS driven by database-layouts); meta.id_attr given as InstrumentedAttribute
                                                   (cannot come from a file); FIFOs / unreadable entries
 
+STATE AND ALIASING (audit of what can outlive one call; kind `seq`, stream sequences-over-shared-objects).  A `seq` case is a script of
+4-12 calls over objects made ONCE per case; every step is judged by the predicate of the single-call kinds on the load case that ITS
+genome database and ITS signature collection make together (the genome databases of a case hold the same logical genomes under
+different primary keys and with genome sets of different SIZE; every signature collection has its own id_attr, order, padding,
+coverage and its own assignment of pool signatures, so a genome seen through a stale object of another database shows).  Dimensions:
+(a) the object is REUSED by >= 2 calls whose other arguments differ, in both orders; (b) after EVERY step the caller's object is
+compared with a print taken before (values and their types; ORM objects against the case's table; files by content); (c) calls that
+FAIL part-way are interleaved, then the good call is repeated on the same thread and objects; (d) the same call twice must give the
+same result; (e) a second thread.  "old" = a stream that existed before this audit; "+" = added.
+
+  entry point (anchor)            objects that outlive the call                     a  b  c  d  e   where
+  ------------------------------  ------------------------------------------------  -------------  ---------------------------------------------
+  load_from_dir, locate_files     the directory, its two files                      +  +  +  +  +   old: same directory loaded twice while open
+                                  (path as str / Path)                                              (multi share=dir); every case its own path.
+                                                                                                    + `rewrite`: the files REPLACED (other set,
+                                                                                                    other collection, other file NAMES) between
+                                                                                                    loads of one path; `badload` on a damaged copy
+                                                                                                    in between; file bytes + listing after every
+                                                                                                    step (also kind dir: listing before / after)
+  ReferenceDatabase.load          Session + engine, open HDF5 file (made by it)     +  +  +  +  +   + load / close / load of the same files; 2-3 open
+                                                                                                    together (old: multi); `fresh` in a worker thread
+  load_genomeset                  Session, ReferenceGenomeSet, AnnotatedGenome /    +  +  +  +  -   + ONE genome set for 2-3 signature objects of
+                                  Genome objects of its identity map                                different id_attr / order / coverage (`gset` +
+                                                                                                    several `make`); Genome objects the session holds
+                                                                                                    compared with the table without SQL
+  load_signatures                 HDF5Signatures: ids array, meta, open file        +  +  +  +  -   old: one opened file for several genome sets
+                                                                                                    (multi share=sigs), not printed.  + sets of
+                                                                                                    different size, both orders; ids, vars(meta),
+                                                                                                    k-mer spec, every signature's bytes printed
+  ReferenceDatabase(gset, sigs)   caller's in-memory AnnotatedSignatures (ids as    +  +  +  +  -   old: in-memory collections were single-use.
+                                  list / tuple / array / strided view, meta,                        + `memsigs` slot reused for several genome sets
+                                  SignatureList / SignatureArray)
+                                  the result: genomes, sig_indices, signatures      +  +  +  +  -   old: re-read at every observation of multi.
+                                                                                                    + compared after EVERY step with what they were
+                                                                                                    at open; Genome rows against the table; kind
+                                                                                                    load: re-read after the query of the same case
+  genomes_by_id(_subset)          caller's ids container; the genome set            +  +  +  +  -   old: 3 calls, one attribute, fresh container.
+                                                                                                    + one genome set x several attributes and
+                                                                                                    containers, one container x several genome sets;
+                                                                                                    `badmatch`: strict KeyError, bad attribute, a
+                                                                                                    container that raises half-way; kind match:
+                                                                                                    container printed before / after
+  jaccarddist_matrix              queries list, db.signatures, db.sig_indices,      +  +  +  +  +   old: harness-global query arrays, never printed.
+                                  the returned matrix (out= is DOCUMENTED as                        + per-case copies handed to every call; matrices
+                                  written to: judged so)                                            handed out earlier re-read at the end (no shared
+                                                                                                    output buffer); `badquery`: wrong out= shape, a
+                                                                                                    float query in the MIDDLE of the batch; kind load:
+                                                                                                    query arrays printed before / after every case
+  gambit.query.query              QueryParams object, queries, inputs list,         +  +  +  +  +   old: a fresh QueryParams per call.  + 2 params
+                                  QueryResults (aliases params, genomeset, meta,                    objects per case handed to every query on
+                                  AnnotatedGenome objects); **kw is copied by the                   databases of different size (report_closest above
+                                  language                                                          / below the size); `badquery`: iterator that
+                                                                                                    raises, no queries, inputs too short; results
+                                                                                                    handed out earlier re-read at the end
+  gambit -d DIR query             CLIContext (one per invocation); module / class   +  +  +  +  -   old: every invocation on a new path.  + the same
+                                  state of the library                                              directory twice, two directories alternating, a
+                                                                                                    failing directory in between, the same PATH after
+                                                                                                    its files were replaced; same command, same output
+  module / class / thread-local   whatever one call leaves for the next             +  .  +  +  +   all cases share one process, so old streams could
+  state of gambit.db.refdb,                                                                         trip over it -- but their replay (one case) did not
+  gambit.query, gambit.metric                                                                       reproduce.  A seq case carries the whole sequence.
+  not driven / not judged         ONE database object used from two threads (SQLite connections are bound to their thread; not advertised), fork
+                                  (the query command does not fork); exporters given one QueryResults twice (C15-C17); identity of returned objects;
+                                  the NUMBER of closest genomes (only through "same call, same result"); what a failing call raises
+
+GENUINE DEFECT found by this audit in the unchanged code, NOT repaired (proposed: repo_fixes/C04-load-creates-missing-genome-file.diff):
+state that survives a FAILED call.  The genome file is opened read-write-create, so a load that names a genome file which does not
+exist fails (OperationalError: no such table) AND LEAVES AN EMPTY FILE under that name.  Sequence: directory D = {genomes.gdb,
+signatures.gs} loads; ReferenceDatabase.load(D/genomes.db, D/signatures.gs) (wrong extension) fails and creates D/genomes.db;
+load_from_dir(D) now fails with "Multiple genome database files" although D was complete.  Same through a genome-file name that is a
+broken symbolic link (the link's TARGET is created, possibly in another database directory).  Exactly these two cases are counted
+('...KNOWN-DEFECT...') instead of judged: seq step `badload wrong-genome-name`, and kind dir when the only change of the directory is
+that the target of a broken genome-file link came into being; with the proposed fix both counters stay at zero and everything is judged.
+
 GENUINE DEFECT found by the audit in the code as found, repaired in /repo by a fix: commit (repo_fixes/C04-sqlite-url.diff):
 a genome file whose NAME contains '?' (e.g. 'refs?x.gdb', the only .gdb/.db entry, next to one signature file).
 gambit.db.sqla.file_sessionmaker and gambit.cli.common.CLIContext built the engine with f'sqlite:///{path}', so SQLAlchemy cut
@@ -127,7 +202,13 @@ RULE = ('load: genome rows (4 identifier columns, NULLs, rows outside the genome
         'the logical content alone is judged; also non-trivial when the annotation rows are physically in another order than the genome '
         'rows). multi: 2-3 databases open together or '
         'sharing one signature object, non-trivial: >=2 databases one of which is non-trivial as load. match: '
-        'genomes_by_id(_subset) called directly, non-trivial: >=2 genomes and >=2 identifiers')
+        'genomes_by_id(_subset) called directly, non-trivial: >=2 genomes and >=2 identifiers. seq: a script of 4-12 calls (load / '
+        'load_genomeset / load_signatures / constructor / matrix + query / matching functions / command line / close / files replaced / '
+        'calls failing part-way / worker thread) over 2-3 genome databases of different size, 2-3 signature collections with their own '
+        'id_attr, 2 QueryParams objects and 2 query lists made once per case; every step judged as load / match / cli on its own '
+        'combination, plus: caller\'s objects, open databases and files unchanged after every step, same call same result, earlier '
+        'results unchanged at the end; non-trivial: >=2 steps ran, some shared object was used by >=2 steps and some step was non-trivial '
+        'as load / match')
 TRUSTED = ['SQLAlchemy/SQLite: `genomeset.genomes.join(...).add_columns(attr)` returns one row per AnnotatedGenome of '
            'the set with the stored column value; `.filter(attr == None).count()` counts the NULLs; `.count()` the rows; '
            'one ORM object per row (identity map) -- modelled as list operations over the harness\'s row table; that this does not '
@@ -139,7 +220,9 @@ TRUSTED = ['SQLAlchemy/SQLite: `genomeset.genomes.join(...).add_columns(attr)` r
            'NumPy float32 division of the exact intersection/union counts as the directly computed distance '
            '(cross-checked against gambit.metric.jaccarddist on the whole pool in setup)',
            'harness/c04.py file construction (template database + sqlite3 inserts or LAYOUT OPS through sqlite3 / SQLAlchemy, '
-           'dump_signatures); layout_walk: the finished file of an op list holds exactly the rows of the case\'s table']
+           'dump_signatures); layout_walk: the finished file of an op list holds exactly the rows of the case\'s table',
+           'kind seq: the interpreter _SeqRun (which slot holds what, closing order, prints obj_print / sigs_print / dir_print of the '
+           'caller\'s objects); CPython copies **kw into a new dict (a callee cannot reach the caller\'s keyword dict)']
 ASSUMPTIONS = ['rows of the genome set are distinct rows (hypothesis NoDup gs of C04_success_iff): primary keys are unique',
                'Python equality of identifier values is equality of (type, value): int vs str never equal; NumPy integers '
                'equal to Python ints of the same value',
@@ -148,8 +231,11 @@ ASSUMPTIONS = ['rows of the genome set are distinct rows (hypothesis NoDup gs of
                'identifiers are Python / NumPy integers within int64 or strings without NUL (floats and bools, which Python '
                'equates with integers, are not identifiers)',
                'command-line genome-file queries: the query signature is the set of K-mers following the prefix on either strand '
-               'of a record (harness own_kmers; that gambit computes this set is property C01/C06)']
-CORRESPONDENCES = ['load', 'dir', 'cli', 'multi', 'match']
+               'of a record (harness own_kmers; that gambit computes this set is property C01/C06)',
+               'kind seq: files are replaced only after everything opened from them was closed; a database object is used only in '
+               'the thread that made it (a worker thread loads, queries and closes its own); out= of jaccarddist_matrix is '
+               'documented as written to']
+CORRESPONDENCES = ['load', 'dir', 'cli', 'multi', 'match', 'seq']
 BATCH = 250
 SHRINK = False      # cases are generated smallest-first; generic list shrinking breaks the case invariants
 
@@ -216,6 +302,7 @@ def _pool():
 		seed += 1
 	_S['pool'] = [np.array(sorted(s), dtype=np.uint16) for s in refs]
 	_S['queries'] = [np.array(sorted(s), dtype=np.uint16) for s in qs]
+	_S['queries_pristine'] = [q.copy() for q in _S['queries']]
 	_S['table'] = table
 	# the directly computed distances are what the pairwise kernel (property C02) gives
 	from gambit.metric import jaccarddist
@@ -915,6 +1002,7 @@ def observe(case, db):
 	qs = [_S['queries'][i] for i in case['queries']]
 	mat = None
 	qobs = None
+	qs_was = obj_print(qs) if pairs and qs else None
 	if pairs and qs:
 		try:
 			m = jaccarddist_matrix(qs, db.signatures, ref_indices=db.sig_indices, chunksize=case.get('chunksize'))
@@ -930,6 +1018,15 @@ def observe(case, db):
 				                 match=(int(cm.genome.genome_id), _f32(cm.distance))))
 		except Exception as e:     # noqa
 			qobs = f'query raised {type(e).__name__}: {e}'
+		# state and aliasing audit: the caller's query signatures and the database's own lists are what they were
+		if obj_print(qs) != qs_was:
+			for i in case['queries']:
+				_S['queries'][i] = _S['queries_pristine'][i].copy()
+			if not isinstance(mat, str):
+				mat = "the caller's query signatures were modified by jaccarddist_matrix / query"
+		pairs_after = [(int(k), int(g.genome_id)) for g, k in zip(db.genomes, db.sig_indices)]
+		if pairs_after != pairs and not isinstance(mat, str):
+			mat = f'the genomes / sig_indices of the database changed while it was queried: {pairs} -> {pairs_after}'
 	return (pairs, mat, qobs, stored)
 
 
@@ -1083,6 +1180,7 @@ CONTENT_CODE = {'gdb': 0, 'sig': 1, 'dir': 2, 'junk': 3,
                 'empty': 3, 'link-gdb': 0, 'link-sig': 1, 'link-dir': 2, 'link-broken': 3}
 EFFECTIVE = {'empty': 'junk', 'link-gdb': 'gdb', 'link-sig': 'sig', 'link-dir': 'dir', 'link-broken': 'junk'}
 GEXT, SEXT = ('.gdb', '.db'), ('.gs', '.h5')
+EMPTY_SHA1 = 'da39a3ee5e6b4b0d3255bfef95601890afd80709'      # dir_print of a zero-length file
 
 
 def valid_name(n):
@@ -1172,6 +1270,7 @@ def k_dir(ctx, cases):
 		try:
 			for name, kind in c['entries']:
 				make_entry(d, name, kind)
+			dir_was = dir_print(d)
 			arg, cleanup = _dir_argument(dict(dirarg=c.get('arg', 'str')), d)
 			try:
 				gf, sf = ReferenceDatabase.locate_files(arg)
@@ -1184,8 +1283,11 @@ def k_dir(ctx, cases):
 				if cleanup:
 					cleanup()
 			o_load = impl_load(dict(dc, queries=[0], chunksize=2, dirarg=c.get('arg', 'str')), d)
+			dir_now = dir_print(d)
 		finally:
 			shutil.rmtree(d, ignore_errors=True)
+			if os.path.exists(os.path.join(_S['dirsrc'], 'no-such-file')):      # see KNOWN DEFECT below: every case starts with the link broken
+				os.remove(os.path.join(_S['dirsrc'], 'no-such-file'))
 		names = [e[0] for e in c['entries']]
 		kinds = dict((e[0], EFFECTIVE.get(e[1], e[1])) for e in c['entries'])
 		gm = [x for x in names if has_ext(x, GEXT)]
@@ -1215,6 +1317,15 @@ def k_dir(ctx, cases):
 			what = judge_loaded(dict(dc, queries=[0]), oracle(dc), o_load[1], o_load[2], o_load[3])
 		elif exact and kinds[gm[0]] == 'gdb' and kinds[sm[0]] == 'sig':
 			what = f'load_from_dir failed with {o_load[1]} on a directory with exactly one genome file and one signature file'
+		if not what and dir_now != dir_was:      # state and aliasing audit: the next load must see the same directory
+			born = [x[0] for x, y in zip(dir_was, dir_now) if x != y and x[0] == y[0] and x[1] == 'not a file' and y[1] == EMPTY_SHA1]
+			if (len(dir_was) == len(dir_now) and born and all(x == y or x[0] in born for x, y in zip(dir_was, dir_now))
+			        and all(dict(c['entries']).get(n) == 'link-broken' for n in born) and any(has_ext(n, GEXT) for n in born)):
+				# KNOWN DEFECT (module docstring, repo_fixes/C04-load-creates-missing-genome-file.diff): the genome file is opened
+				# read-write-create, so a genome-file name that is a broken link gets its TARGET created as an empty file
+				ctx.count('dir:KNOWN-DEFECT a failing load created the missing genome file (target of a broken link); not judged')
+			else:
+				what = f'locate_files / load_from_dir changed the directory they read: {dir_was} -> {dir_now}'
 		if what:
 			ctx.violation('dir', c, what, impl=dict(locate=o_loc, load=_show(o_load)),
 			              spec=dict(genome_files=gm, signature_files=sm), model=dict(locate=m_loc, load=m_load))
@@ -1260,6 +1371,46 @@ def cli_entries(fmt, path):
 			ent = first + ent
 		out.append(ent)
 	return out
+
+
+def judge_cli(c, orc, data, table, gm, sm, r):
+	"""the property on one `gambit query` run: data = cli_entries(...) (a list) when the command exited with 0, else anything
+	else; table = the directly computed distances of the queries that were given; gm / sm = the genome-file / signature-file
+	names of the directory; r = the click result (for the message).  None if it holds."""
+	inset = orc['inset']
+	exact = len(gm) == 1 and len(sm) == 1
+	what = None
+	ok = isinstance(data, list)
+	if ok and not exact:
+		what = f'gambit query produced results although the directory holds {len(gm)} genome file(s) {gm} and {len(sm)} signature file(s) {sm}'
+	elif ok and orc['must_fail']:
+		what = f'gambit query produced results although {orc["must_fail"]}'
+	elif ok and inset:
+		by_name = {'key': {g[1]: g for g in inset}, 'description': {f'genome {g[0]}': g for g in inset}}
+		if len(data) != len(table):
+			what = f'{len(data)} result items for {len(table)} queries'
+		for qi, entries in enumerate(data):
+			if what:
+				break
+			ownpool = {g[0]: c['sigs'][orc['own'][g[0]][0]][1] for g in inset if len(orc['own'][g[0]]) >= 1}
+			best = min(table[qi][ownpool[g[0]]] for g in inset) if orc['must_load'] else None
+			for j, (how, key, dd) in enumerate(entries):
+				by_key = by_name[how]
+				if key not in by_key:
+					what = f'query q{qi}: result names genome {key!r} which is not in the set'
+				elif not orc['must_load']:
+					what = f'gambit query produced results from an ambiguous signature file ({key!r} listed)'
+				elif dd != table[qi][ownpool[by_key[key][0]]]:
+					what = (f'query q{qi}: distance {dd!r} reported for genome {key!r}, directly computed distance to its own '
+					        f'signature is {table[qi][ownpool[by_key[key][0]]]!r}')
+				elif j == 0 and dd != best:
+					what = f'query q{qi}: closest genome reported at {dd!r}, the closest own signature is at {best!r}'
+				if what:
+					break
+	elif not ok and orc['must_load'] and inset and exact:
+		what = (f'gambit query failed (exit {getattr(r, "exit_code", None)}: {str(getattr(r, "exception", "") or getattr(r, "output", ""))[:200]}) '
+		        'although every genome has exactly one signature stored under its identifier')
+	return what
 
 
 def k_cli(ctx, cases):
@@ -1331,39 +1482,10 @@ def k_cli(ctx, cases):
 				os.remove(out)
 		ctx.case(c, nontrivial=nontrivial_load(c, orc) or not exact)
 		inset = orc['inset']
-		what = None
 		ok = isinstance(data, list)
 		ctx.count('cli:' + ('results' if ok else 'error exit'))
 		ctx.count(f'cli:fmt={fmt},queries={qin},db={c.get("dbvia", "opt")}')
-		if ok and not exact:
-			what = f'gambit query produced results although the directory holds {len(gm)} genome file(s) {gm} and {len(sm)} signature file(s) {sm}'
-		elif ok and orc['must_fail']:
-			what = f'gambit query produced results although {orc["must_fail"]}'
-		elif ok and inset:
-			by_name = {'key': {g[1]: g for g in inset}, 'description': {f'genome {g[0]}': g for g in inset}}
-			if len(data) != NQUERY:
-				what = f'{len(data)} result items for {NQUERY} queries'
-			for qi, entries in enumerate(data):
-				if what:
-					break
-				ownpool = {g[0]: c['sigs'][orc['own'][g[0]][0]][1] for g in inset if len(orc['own'][g[0]]) >= 1}
-				best = min(table[qi][ownpool[g[0]]] for g in inset) if orc['must_load'] else None
-				for j, (how, key, dd) in enumerate(entries):
-					by_key = by_name[how]
-					if key not in by_key:
-						what = f'query q{qi}: result names genome {key!r} which is not in the set'
-					elif not orc['must_load']:
-						what = f'gambit query produced results from an ambiguous signature file ({key!r} listed)'
-					elif dd != table[qi][ownpool[by_key[key][0]]]:
-						what = (f'query q{qi}: distance {dd!r} reported for genome {key!r}, directly computed distance to its own '
-						        f'signature is {table[qi][ownpool[by_key[key][0]]]!r}')
-					elif j == 0 and dd != best:
-						what = f'query q{qi}: closest genome reported at {dd!r}, the closest own signature is at {best!r}'
-					if what:
-						break
-		elif not ok and orc['must_load'] and inset and exact:
-			what = (f'gambit query failed (exit {getattr(r, "exit_code", None)}: {str(getattr(r, "exception", "") or getattr(r, "output", ""))[:200]}) '
-			        'although every genome has exactly one signature stored under its identifier')
+		what = judge_cli(c, orc, data, table, gm, sm, r)
 		if what:
 			ctx.violation('cli', c, what, impl=data, spec=dict(must_fail=orc['must_fail'], must_load=orc['must_load'], genome_files=gm,
 			              signature_files=sm), model=m)
@@ -1471,6 +1593,42 @@ def k_multi(ctx, cases):
 # the public matching functions of gambit.db.refdb (property predicate only, no model)
 # ------------------------------------------------------------------------------------------------
 
+def judge_match(attr, ids, by_pk, owners, out):
+	"""the matching functions where they RETURN: out = {'subset': [pks, positions] | exception name, 'by_id strict=False' /
+	'by_id strict=True': [pk | None ...] | exception name}; owners[p] = genomes of the set carrying ids[p].  None if it holds."""
+	what = None
+	sub = out.get('subset')
+	if isinstance(sub, list):
+		pks, pos = sub
+		if len(pks) != len(pos):
+			what = f'genomes_by_id_subset returned {len(pks)} genomes and {len(pos)} positions'
+		elif pos != sorted(set(pos)) or any(not 0 <= p < len(ids) for p in pos):
+			what = f'genomes_by_id_subset returned positions {pos} for {len(ids)} identifiers'
+		else:
+			for pk, p in zip(pks, pos):
+				if pk not in owners[p]:
+					what = (f'genomes_by_id_subset pairs position {p} (identifier {ids[p]!r}) with genome {pk} '
+					        f'({attr}={value_of(by_pk[pk], attr)!r})' if pk in by_pk else
+					        f'genomes_by_id_subset pairs position {p} with genome {pk}, which is not in the genome set')
+					break
+			else:
+				left = [p for p in range(len(ids)) if owners[p] and p not in pos]
+				if left:
+					what = f'genomes_by_id_subset left out position(s) {left} although genomes of the set carry those identifiers'
+	for strict in (False, True):
+		r = out.get(f'by_id strict={strict}')
+		if what or not isinstance(r, list):
+			continue
+		if len(r) != len(ids):
+			what = f'genomes_by_id(strict={strict}) returned {len(r)} entries for {len(ids)} identifiers'
+			continue
+		for p, pk in enumerate(r):
+			if (pk is None and owners[p]) or (pk is not None and pk not in owners[p]):
+				what = f'genomes_by_id(strict={strict}) gives genome {pk} for identifier {ids[p]!r} at position {p}; genomes of the set carrying it: {owners[p]}'
+				break
+	return what
+
+
 def k_match(ctx, cases):
 	"""case: attr, genomes, ids (the stored identifiers), attr_form 'str' | 'attribute' (Genome.<attr> itself),
 	ids_form (a MEM_IDS container).  genomes_by_id_subset(genomeset, attr, ids) -> (genomes, positions) and
@@ -1499,6 +1657,7 @@ def k_match(ctx, cases):
 			session, gset = load_genomeset(os.path.join(d, 'g.gdb'))
 			a = getattr(Genome, attr) if c['attr_form'] == 'attribute' else attr
 			idc = mem_signatures(probe['sigs'], attr, 'list', c['ids_form']).ids
+			idc_was = obj_print(idc)
 
 			def pk_of(g):
 				return None if g is None else int(g.genome_id)
@@ -1512,6 +1671,8 @@ def k_match(ctx, cases):
 					out[f'by_id strict={strict}'] = [pk_of(g) for g in genomes_by_id(gset, a, idc, strict=strict)]
 				except Exception as e:     # noqa
 					out[f'by_id strict={strict}'] = type(e).__name__
+			if obj_print(idc) != idc_was:      # state and aliasing audit
+				out['container'] = f"the caller's identifier container was modified: {idc_was} -> {obj_print(idc)}"
 		except Exception as e:     # noqa
 			out['harness'] = f'{type(e).__name__}: {e}'
 		finally:
@@ -1523,34 +1684,7 @@ def k_match(ctx, cases):
 					pass
 			shutil.rmtree(d, ignore_errors=True)
 		sub = out.get('subset')
-		if isinstance(sub, list):
-			pks, pos = sub
-			if len(pks) != len(pos):
-				what = f'genomes_by_id_subset returned {len(pks)} genomes and {len(pos)} positions'
-			elif pos != sorted(set(pos)) or any(not 0 <= p < len(ids) for p in pos):
-				what = f'genomes_by_id_subset returned positions {pos} for {len(ids)} identifiers'
-			else:
-				for pk, p in zip(pks, pos):
-					if pk not in owners[p]:
-						what = (f'genomes_by_id_subset pairs position {p} (identifier {ids[p]!r}) with genome {pk} '
-						        f'({attr}={value_of(by_pk[pk], attr)!r})' if pk in by_pk else
-						        f'genomes_by_id_subset pairs position {p} with genome {pk}, which is not in the genome set')
-						break
-				else:
-					left = [p for p in range(len(ids)) if owners[p] and p not in pos]
-					if left:
-						what = f'genomes_by_id_subset left out position(s) {left} although genomes of the set carry those identifiers'
-		for strict in (False, True):
-			r = out.get(f'by_id strict={strict}')
-			if what or not isinstance(r, list):
-				continue
-			if len(r) != len(ids):
-				what = f'genomes_by_id(strict={strict}) returned {len(r)} entries for {len(ids)} identifiers'
-				continue
-			for p, pk in enumerate(r):
-				if (pk is None and owners[p]) or (pk is not None and pk not in owners[p]):
-					what = f'genomes_by_id(strict={strict}) gives genome {pk} for identifier {ids[p]!r} at position {p}; genomes of the set carrying it: {owners[p]}'
-					break
+		what = judge_match(attr, ids, by_pk, owners, out) or out.get('container')
 		ctx.case(c, nontrivial=len(inset) >= 2 and len(ids) >= 2)
 		ctx.count('match:subset ' + ('returns' if isinstance(sub, list) else f'raises {sub}'))
 		if 'harness' in out:
@@ -1559,7 +1693,851 @@ def k_match(ctx, cases):
 			ctx.violation('match', c, what, impl=out, spec=dict(genomes_of_the_set_carrying_each_identifier=owners))
 
 
-KINDS = {'load': k_load, 'dir': k_dir, 'cli': k_cli, 'multi': k_multi, 'match': k_match}
+# ------------------------------------------------------------------------------------------------
+# sequences: a short script of calls over a small pool of SHARED objects (state and aliasing audit; property predicate
+# only, no model -- the Coq model has no notion of a second call).  See "STATE AND ALIASING" in the module docstring.
+#
+# case = dict(gsets=[genome table ...]            2-3 genome databases (rows as in load cases; the same logical genomes, i.e.
+#                                                 the same identifier values, under DIFFERENT primary keys and with different
+#                                                 genome sets of different sizes)
+#             sigfiles=[dict(attr, sigs, ids_as, sig_dtype) ...]
+#                                                 2-3 signature collections (own id_attr, own order / padding / coverage, and
+#                                                 an own assignment of pool signatures to the logical genomes, so that a
+#                                                 genome seen through the signature of ANOTHER collection shows)
+#             dirs=[dict(g, s, names) ...]        database directories: genome file of gsets[g] + signature file of sigfiles[s]
+#             params=[dict(chunksize, report, strict) ...]   QueryParams OBJECTS made once per case and handed to every query
+#             queries=[[query index ...] ...]     lists of query arrays made once per case and handed to every query
+#             steps=[[op, ...] ...])
+# steps (h, g, s = slot numbers 0..3 of open databases / loaded genome sets / signature objects; d = directory; p, q = index
+# into params / queries):
+#   ['load', h, d, via, kw]          h := database of directory d (via dir = load_from_dir, load = ReferenceDatabase.load,
+#                                    ctor = locate_files + load_genomeset + load_signatures + constructor; kw = keyword call)
+#   ['gset', g, d]                   g := load_genomeset(genome file of d)   (session + genome set kept open)
+#   ['sigs', s, d]                   s := load_signatures(signature file of d)   (kept open)
+#   ['memsigs', s, si, sf, idf]      s := in-memory AnnotatedSignatures of sigfiles[si] (sf list|array, idf an ids form)
+#   ['make', h, g, s, kw]            h := ReferenceDatabase(genome set slot g, signature object slot s)
+#   ['observe', h, p, q, form]       jaccarddist_matrix through sig_indices + query() on h with the pooled params object p and
+#                                    the pooled query list q; form params | kw | inputs
+#   ['match', g, attr, si, idf, af]  genomes_by_id_subset / genomes_by_id(strict False, True) on genome set slot g with the
+#                                    pooled identifier container (ids of sigfiles[si] in form idf); af str | attribute
+#   ['fresh', d, via, p, q, thread]  load + observe + close in one go; thread = in a worker thread
+#   ['cli', d, fmt]                  gambit -d <d> query -s QUERIES -f fmt -o OUT in process
+#   ['close', h]
+#   ['rewrite', d, g, s, names]      everything opened from d is closed, its files are removed and written anew from
+#                                    gsets[g] / sigfiles[s] under the names SEQ_NAMES[names]
+#   ['badquery', h, how, p, q]       a query that fails part-way (SEQ_BADQ)
+#   ['badmatch', g, how, si]         a matching call that fails part-way (SEQ_BADM)
+#   ['badload', d, how]              load_from_dir on a damaged COPY of d (SEQ_BADL)
+# A step whose slot is not open (hand-edited replay) is skipped and counted.
+# ------------------------------------------------------------------------------------------------
+
+SEQ_VIAS = ('dir', 'load', 'ctor')
+SEQ_QFORMS = ('params', 'kw', 'inputs')
+SEQ_BADQ = ('iter-raises', 'empty', 'float-query', 'inputs-short', 'out-shape')
+SEQ_BADM = ('strict-missing', 'bad-attr', 'ids-raise')
+SEQ_BADL = ('truncated-sigs', 'junk-sigs', 'junk-genomes', 'no-sigs', 'two-sigs', 'missing-dir', 'wrong-genome-name')
+SEQ_NAMES = [['genomes.gdb', 'signatures.gs'], ['refs.db', 'refs.h5'], ['a#b.gdb', 'x.tar.gs'], ['g.db', 's.gs']]
+SEQ_SLOTS = 4
+SEQ_IDFORMS = ('list', 'tuple', 'npscalars', 'strided') + STR_STORE + ('i8', 'u8')
+
+
+def seq_combined(case, gi, si, p=None, q=None):
+	"""the load case that genome database gi and signature collection si make together"""
+	sf = case['sigfiles'][si]
+	P = case['params'][p] if p is not None else dict(chunksize=None, report=3)
+	return dict(attr=sf['attr'], genomes=case['gsets'][gi], sigs=sf['sigs'], ids_as=sf.get('ids_as'), sig_dtype=sf.get('sig_dtype'),
+	            chunksize=P.get('chunksize'), report=P.get('report', 3), queries=list(case['queries'][q]) if q is not None else [])
+
+
+def seq_validate(case):
+	def idx(x, n):
+		return _is_int(x, 0, n - 1)
+	try:
+		gsets, sigfiles, dirs, params, queries, steps = (case[k] for k in ('gsets', 'sigfiles', 'dirs', 'params', 'queries', 'steps'))
+		if not (gsets and sigfiles and dirs and params and queries and isinstance(steps, list)):
+			return False
+		for P in params:
+			if not ((P.get('chunksize') is None or _is_int(P['chunksize'], 1, 10 ** 6)) and _is_int(P.get('report', 3), 1, 1000)):
+				return False
+		if any(not q or any(not idx(x, NQUERY) for x in q) for q in queries):
+			return False
+		for gi in range(len(gsets)):
+			for si in range(len(sigfiles)):
+				if sigfiles[si].get('attr') not in ATTRS or not validate(seq_combined(case, gi, si, 0, 0)):
+					return False
+		for d in dirs:
+			if not (idx(d['g'], len(gsets)) and idx(d['s'], len(sigfiles)) and idx(d['names'], len(SEQ_NAMES))):
+				return False
+		for st in steps:
+			op, a = st[0], st[1:]
+			ok = False
+			if op == 'load':
+				ok = len(a) == 4 and idx(a[0], SEQ_SLOTS) and idx(a[1], len(dirs)) and a[2] in SEQ_VIAS
+			elif op in ('gset', 'sigs'):
+				ok = len(a) == 2 and idx(a[0], SEQ_SLOTS) and idx(a[1], len(dirs))
+			elif op == 'memsigs':
+				ok = (len(a) == 4 and idx(a[0], SEQ_SLOTS) and idx(a[1], len(sigfiles)) and a[2] in MEM_SIGS and a[3] in SEQ_IDFORMS
+				      and validate(dict(seq_combined(case, 0, a[1], 0, 0), via='mem', mem=[a[2], a[3]])))
+			elif op == 'make':
+				ok = len(a) == 4 and all(idx(x, SEQ_SLOTS) for x in a[:3])
+			elif op == 'observe':
+				ok = len(a) == 4 and idx(a[0], SEQ_SLOTS) and idx(a[1], len(params)) and idx(a[2], len(queries)) and a[3] in SEQ_QFORMS
+			elif op == 'match':
+				ok = (len(a) == 5 and idx(a[0], SEQ_SLOTS) and a[1] in ATTRS and idx(a[2], len(sigfiles)) and a[3] in SEQ_IDFORMS
+				      and a[4] in ('str', 'attribute') and validate(dict(seq_combined(case, 0, a[2], 0, 0), via='mem', mem=['list', a[3]])))
+			elif op == 'fresh':
+				ok = (len(a) == 5 and idx(a[0], len(dirs)) and a[1] in SEQ_VIAS and idx(a[2], len(params)) and idx(a[3], len(queries)))
+			elif op == 'cli':
+				ok = len(a) == 2 and idx(a[0], len(dirs)) and a[1] in CLI_FMTS
+			elif op == 'close':
+				ok = len(a) == 1 and idx(a[0], SEQ_SLOTS)
+			elif op == 'rewrite':
+				ok = len(a) == 4 and idx(a[0], len(dirs)) and idx(a[1], len(gsets)) and idx(a[2], len(sigfiles)) and idx(a[3], len(SEQ_NAMES))
+			elif op == 'badquery':
+				ok = len(a) == 4 and idx(a[0], SEQ_SLOTS) and a[1] in SEQ_BADQ and idx(a[2], len(params)) and idx(a[3], len(queries))
+			elif op == 'badmatch':
+				ok = len(a) == 3 and idx(a[0], SEQ_SLOTS) and a[1] in SEQ_BADM and idx(a[2], len(sigfiles))
+			elif op == 'badload':
+				ok = len(a) == 2 and idx(a[0], len(dirs)) and a[1] in SEQ_BADL
+			if not ok:
+				return False
+		return True
+	except Exception:     # noqa: a malformed case is not a case
+		return False
+
+
+def obj_print(x):
+	"""a value that changes whenever the observable content (values AND their types) of a caller's object changes"""
+	import hashlib
+	if isinstance(x, np.ndarray):
+		body = repr(x.tolist()) if x.dtype.kind == 'O' else hashlib.sha1(x.tobytes()).hexdigest()
+		return ['ndarray', x.dtype.str, list(x.shape), body]
+	if isinstance(x, (list, tuple)):
+		return [type(x).__name__, [obj_print(y) for y in x]]
+	if isinstance(x, np.generic):
+		return ['numpy ' + type(x).__name__, x.item()]
+	if isinstance(x, dict):
+		return ['dict', [[k, obj_print(v)] for k, v in x.items()]]
+	return [type(x).__name__, x if isinstance(x, (int, str, float, bool, type(None))) else repr(x)]
+
+
+def sigs_print(s):
+	"""identifiers, metadata and signature data of a signature object"""
+	import hashlib
+	h = hashlib.sha1()
+	n = len(s)
+	for i in range(n):
+		a = np.asarray(s[i])
+		h.update(a.dtype.str.encode() + b':' + a.tobytes() + b'|')
+	return [type(s).__name__, n, obj_print(s.ids), obj_print(dict(vars(s.meta))),
+	        str(s.kmerspec), h.hexdigest()]
+
+
+def sigs_print_safe(s):
+	"""sigs_print, or ['unreadable', why] (e.g. the library handed out a collection whose file it had closed)"""
+	try:
+		return sigs_print(s)
+	except Exception as e:     # noqa
+		return ['unreadable', f'{type(e).__name__}: {e}']
+
+
+def dir_print(path):
+	import hashlib
+	out = []
+	for name in sorted(os.listdir(path)):
+		p = os.path.join(path, name)
+		if os.path.isfile(p):
+			with open(p, 'rb') as f:
+				out.append([name, hashlib.sha1(f.read()).hexdigest()])
+		else:
+			out.append([name, 'not a file'])
+	return out
+
+
+class _RaisingIds:
+	"""an identifier container of the caller that fails in the middle of being read"""
+
+	def __init__(self, ids, after):
+		self.ids, self.after = list(ids), after
+
+	def __len__(self):
+		return len(self.ids)
+
+	def __iter__(self):
+		for n, x in enumerate(self.ids):
+			if n == self.after:
+				raise RuntimeError("the caller's identifier container failed")
+			yield x
+
+	def __getitem__(self, i):
+		if isinstance(i, int) and i >= self.after:
+			raise RuntimeError("the caller's identifier container failed")
+		return self.ids[i]
+
+
+class _SeqRun:
+	"""interpreter of one sequence case; .what = None or the first thing that went wrong (a property violation)"""
+
+	def __init__(self, ctx, case):
+		from gambit.query import QueryParams
+		self.ctx, self.case = ctx, case
+		self.root = _newdir()
+		self.dirs = []
+		for n, d in enumerate(case['dirs']):
+			path = os.path.join(self.root, f'd{n}')
+			os.makedirs(path)
+			self.dirs.append(dict(path=path, g=d['g'], s=d['s'], names=d['names']))
+			self._write_dir(n)
+		self.handles, self.gslots, self.sslots = {}, {}, {}
+		self.params = [QueryParams(classify_strict=bool(P.get('strict')), chunksize=P.get('chunksize'), report_closest=P.get('report', 3))
+		               for P in case['params']]
+		self.params_was = [dict(vars(P)) for P in self.params]
+		self.queries = [[_S['queries'][i].copy() for i in q] for q in case['queries']]
+		self.queries_was = [obj_print(q) for q in self.queries]
+		self.inputs = [[f'in{i}' for i in range(len(q))] for q in case['queries']]
+		self.inputs_was = [obj_print(x) for x in self.inputs]
+		self.containers = {}       # (si, form) -> [container, print]
+		self.seen = {}             # same call -> what it gave
+		self.kept = []             # [description, extract(), what it gave at the time]
+		self.trace = []
+		self.what = None
+		self.generation = 0
+		self.used = {}             # shared object -> number of steps that used it
+		self.nontrivial = False
+		self.evaluated = 0
+
+	# ---- files -----------------------------------------------------------------------------------------
+	def _paths(self, n):
+		d = self.dirs[n]
+		gname, sname = SEQ_NAMES[d['names']]
+		return os.path.join(d['path'], gname), os.path.join(d['path'], sname)
+
+	def _master(self, kind, i):
+		"""each genome database / signature file of the case is built once and copied from then on"""
+		path = os.path.join(self.root, f'master-{kind}{i}')
+		if not os.path.exists(path):
+			if kind == 'g':
+				write_genome_db(path, self.case['gsets'][i])
+			else:
+				S = self.case['sigfiles'][i]
+				write_sig_file(path, S['sigs'], S['attr'], S.get('ids_as'), S.get('sig_dtype'))
+		return path
+
+	def _write_dir(self, n):
+		d = self.dirs[n]
+		for name in os.listdir(d['path']):
+			os.remove(os.path.join(d['path'], name))
+		gf, sf = self._paths(n)
+		shutil.copyfile(self._master('g', d['g']), gf)
+		shutil.copyfile(self._master('s', d['s']), sf)
+		d['print'] = dir_print(d['path'])
+
+	def _use(self, *names):
+		for n in names:
+			self.used[n] = self.used.get(n, 0) + 1
+
+	# ---- closing ---------------------------------------------------------------------------------------
+	def _close_handle(self, h):
+		H = self.handles.pop(h, None)
+		if H and H['owns']:
+			_close(H['db'])
+
+	def _close_gslot(self, g):
+		G = self.gslots.pop(g, None)
+		if G:
+			for h in [h for h, H in self.handles.items() if H.get('gslot') is G]:
+				self._close_handle(h)
+			try:
+				G['session'].close()
+				G['session'].get_bind().dispose()
+			except Exception:
+				pass
+
+	def _close_sslot(self, s):
+		X = self.sslots.pop(s, None)
+		if X:
+			for h in [h for h, H in self.handles.items() if H.get('sslot') is X]:
+				self._close_handle(h)
+			try:
+				X['obj'].close()
+			except Exception:
+				pass
+
+	def close_all(self):
+		for h in list(self.handles):
+			self._close_handle(h)
+		for g in list(self.gslots):
+			self._close_gslot(g)
+		for s in list(self.sslots):
+			self._close_sslot(s)
+		shutil.rmtree(self.root, ignore_errors=True)
+
+	# ---- what is seen of the objects -------------------------------------------------------------------
+	def _genome_rows(self, session, annotated):
+		"""(primary key, the four identifier values) of AnnotatedGenome objects, read through the ORM objects (one SELECT
+		brings every Genome row into the session's identity map, the attributes are then read from the objects)"""
+		from gambit.db.models import Genome
+		keep = session.query(Genome).all()      # noqa: referenced until the rows have been read
+		rows = [[int(a.genome_id), a.genome.key, a.genome.genbank_acc, a.genome.refseq_acc, a.genome.ncbi_id] for a in annotated]
+		del keep
+		return rows
+
+	def _loaded_rows(self, session):
+		"""the same for whatever Genome objects the session holds already -- no SQL at all"""
+		from gambit.db.models import Genome
+		rows = []
+		for obj in list(session.identity_map.values()):
+			if isinstance(obj, Genome):
+				dd = obj.__dict__
+				if all(k in dd for k in ('id', 'key', 'genbank_acc', 'refseq_acc', 'ncbi_id')):
+					rows.append([int(dd['id']), dd['key'], dd['genbank_acc'], dd['refseq_acc'], dd['ncbi_id']])
+		return rows
+
+	def _rows_wrong(self, rows, gi, who):
+		table = {g[0]: g[:5] for g in self.case['gsets'][gi]}
+		for r in rows:
+			if r[0] not in table:
+				return f'{who}: genome {r[0]} is not a row of its genome database'
+			if list(table[r[0]]) != r:
+				return f'{who}: genome {r[0]} reads {r[1:]} through the ORM, the database file holds {list(table[r[0]][1:])}'
+		return None
+
+	def _handle_state(self, H):
+		db = H['db']
+		pairs = [(int(k), int(g.genome_id)) for g, k in zip(db.genomes, db.sig_indices)]
+		if len(db.genomes) != len(db.sig_indices):
+			return pairs, f'genomes and sig_indices differ in length ({len(db.genomes)} vs {len(db.sig_indices)})'
+		return pairs, self._rows_wrong(self._genome_rows(db.session, db.genomes), H['g'], 'an open database')
+
+	def invariants(self):
+		"""the caller's objects are what they were; open databases and the files are what they were"""
+		for n, P in enumerate(self.params):
+			now = dict(vars(P))
+			if now != self.params_was[n]:
+				return f"the caller's QueryParams object {n} was modified: {self.params_was[n]} -> {now}"
+		for n, q in enumerate(self.queries):
+			if obj_print(q) != self.queries_was[n]:
+				return f"the caller's list of query signatures {n} was modified"
+		for n, x in enumerate(self.inputs):
+			if obj_print(x) != self.inputs_was[n]:
+				return f"the caller's list of inputs {n} was modified: {x}"
+		for key, (cont, was) in self.containers.items():
+			if obj_print(cont) != was:
+				return f"the caller's identifier container {list(key)} was modified: {was} -> {obj_print(cont)}"
+		for s, X in self.sslots.items():
+			now = sigs_print_safe(X['obj'])
+			if now != X['print']:
+				return f"the caller's signature object (slot {s}) was modified: {X['print']} -> {now}"
+		for g, G in self.gslots.items():
+			bad = self._rows_wrong(self._loaded_rows(G['session']), G['g'], f'genome set slot {g}')
+			if bad:
+				return bad
+		for h, H in self.handles.items():
+			pairs, bad = self._handle_state(H)
+			if bad:
+				return bad
+			if pairs != H['pairs']:
+				return f'the genomes / sig_indices of open database {h} changed: {H["pairs"]} -> {pairs}'
+			if H['sigprint'] is not None and sigs_print_safe(H['db'].signatures) != H['sigprint']:
+				return f'the signature object of open database {h} changed: {H["sigprint"]} -> {sigs_print_safe(H["db"].signatures)}'
+		for n, d in enumerate(self.dirs):
+			now = dir_print(d['path'])
+			if now != d['print']:
+				return f'database directory {n} was changed by reading it: {d["print"]} -> {now}'
+		return None
+
+	# ---- steps -----------------------------------------------------------------------------------------
+	def _opened(self, h, db, gi, si, owns, **more):
+		"""judge a produced database by its pairs and register it"""
+		self._close_handle(h)
+		H = dict(db=db, g=gi, s=si, owns=owns, **more)
+		self.generation += 1
+		H['gen'] = self.generation
+		self.handles[h] = H
+		pairs, bad = self._handle_state(H)
+		H['pairs'] = pairs
+		H['sigprint'] = sigs_print_safe(db.signatures) if owns else None
+		if owns and H['sigprint'][0] == 'unreadable' and not bad:
+			bad = f'the signatures of the database just produced cannot be read: {H["sigprint"][1]}'
+		cc = seq_combined(self.case, gi, si)
+		return bad or judge_outcome(cc, oracle(cc), ('ok', pairs, None, None))
+
+	def _failed(self, gi, si, err):
+		cc = seq_combined(self.case, gi, si)
+		return judge_outcome(cc, oracle(cc), ('err', err))
+
+	def _observe(self, db, gi, si, p, q, form):
+		"""-> (observation, what)"""
+		from gambit.metric import jaccarddist_matrix
+		from gambit.query import query
+		P, Q, Pd = self.params[p], self.queries[q], self.case['params'][p]
+		cc = seq_combined(self.case, gi, si, p, q)
+		orc = oracle(cc)
+		pairs = [(int(k), int(g.genome_id)) for g, k in zip(db.genomes, db.sig_indices)]
+		mat = qobs = None
+		m = res = None
+		if pairs:
+			try:
+				m = jaccarddist_matrix(Q, db.signatures, ref_indices=db.sig_indices, chunksize=P.chunksize)
+				mat = [[_f32(x) for x in row] for row in m]
+			except Exception as e:     # noqa
+				mat = f'jaccarddist_matrix raised {type(e).__name__}: {e}'
+			try:
+				if form == 'kw':
+					cs = Pd.get('chunksize')
+					res = query(db, Q, chunksize=None if cs is None else np.int64(cs), report_closest=np.int32(Pd.get('report', 3)),
+					            classify_strict=bool(Pd.get('strict')))
+				elif form == 'inputs':
+					res = query(db, Q, P, inputs=self.inputs[q])
+				else:
+					res = query(db, Q, P)
+				qobs = self._extract(res)
+			except Exception as e:     # noqa
+				qobs = f'query raised {type(e).__name__}: {e}'
+		what = judge_outcome(cc, orc, ('ok', pairs, mat, qobs))
+		if not what and nontrivial_load(cc, orc):
+			self.nontrivial = True
+		obs = [pairs, mat, qobs]
+		if m is not None and not isinstance(mat, str):
+			self.kept.append(['a distance matrix returned earlier', lambda m=m: [[_f32(x) for x in row] for row in m], mat])
+		if res is not None and not isinstance(qobs, str):
+			self.kept.append(['a QueryResults object returned earlier', lambda res=res: self._extract(res), qobs])
+		return obs, what
+
+	@staticmethod
+	def _extract(res):
+		out = []
+		for item in res.items:
+			cm = item.classifier_result.closest_match
+			out.append(dict(closest=[(int(mm.genome.genome_id), _f32(mm.distance)) for mm in item.closest_genomes],
+			                match=(int(cm.genome.genome_id), _f32(cm.distance))))
+		return out
+
+	def _same(self, key, obs, text):
+		key = json.dumps(key)
+		if key in self.seen and self.seen[key] != obs:
+			return f'{text} gave another result than the same call gave before: {self.seen[key]} -> {obs}'
+		self.seen[key] = obs
+		return None
+
+	def _container(self, si, form):
+		key = (si, form)
+		if key not in self.containers:
+			S = self.case['sigfiles'][si]
+			cont = mem_signatures(S['sigs'], S['attr'], 'list', form).ids
+			self.containers[key] = [cont, obj_print(cont)]
+		return self.containers[key][0]
+
+	def step(self, st):
+		"""-> None | 'skipped'; sets self.what"""
+		from gambit.db import ReferenceDatabase
+		from gambit.db.refdb import load_genomeset, genomes_by_id_subset, genomes_by_id
+		from gambit.db.models import Genome
+		from gambit.sigs import load_signatures
+		op, a = st[0], st[1:]
+		case = self.case
+		if op == 'load':
+			h, dn, via, kw = a
+			d = self.dirs[dn]
+			cc = dict(seq_combined(case, d['g'], d['s']), via=via, kwcall=bool(kw), names=SEQ_NAMES[d['names']])
+			o = open_db(cc, d['path'])
+			self._use(f'dir{dn}')
+			self.trace.append(f'{st}: {o[0] if o[0] == "ok" else o}')
+			self.ctx.count('seq:load ' + ('gives a database' if o[0] == 'ok' else 'fails'))
+			if o[0] == 'ok':
+				self.what = self._opened(h, o[1], d['g'], d['s'], True, src=dn)
+			else:
+				self._close_handle(h)
+				self.what = self._failed(d['g'], d['s'], o[1])
+		elif op == 'gset':
+			g, dn = a
+			self._close_gslot(g)
+			self._use(f'dir{dn}')
+			try:
+				session, gset = load_genomeset(self._paths(dn)[0])
+			except Exception as e:     # noqa
+				self.trace.append(f'{st}: {type(e).__name__}')
+				self.what = f'load_genomeset failed with {type(e).__name__} ({e}) on a genome database file that holds exactly one genome set'
+			else:
+				self.gslots[g] = dict(session=session, gset=gset, g=self.dirs[dn]['g'], src=dn)
+				self.trace.append(f'{st}: ok')
+		elif op == 'sigs':
+			s, dn = a
+			self._close_sslot(s)
+			self._use(f'dir{dn}')
+			try:
+				obj = load_signatures(self._paths(dn)[1])
+			except Exception as e:     # noqa
+				self.trace.append(f'{st}: {type(e).__name__}')
+				self.what = f'load_signatures failed with {type(e).__name__} ({e}) on a signature file written by dump_signatures'
+			else:
+				self.sslots[s] = dict(obj=obj, s=self.dirs[dn]['s'], src=dn, print=sigs_print_safe(obj))
+				self.trace.append(f'{st}: ok')
+		elif op == 'memsigs':
+			s, si, sform, idf = a
+			self._close_sslot(s)
+			S = case['sigfiles'][si]
+			obj = mem_signatures(S['sigs'], S['attr'], sform, idf, S.get('sig_dtype'))
+			self.sslots[s] = dict(obj=obj, s=si, src=None, print=sigs_print_safe(obj))
+			self.trace.append(f'{st}: ok')
+		elif op == 'make':
+			h, g, s, kw = a
+			if g not in self.gslots or s not in self.sslots:
+				return 'skipped'
+			G, X = self.gslots[g], self.sslots[s]
+			self._use(f'gslot{g}:{G["src"]}', f'sslot{s}:{X["src"]}:{X["s"]}')
+			try:
+				db = ReferenceDatabase(signatures=X['obj'], genomeset=G['gset']) if kw else ReferenceDatabase(G['gset'], X['obj'])
+			except Exception as e:     # noqa: the property only says "fails with an error"
+				self._close_handle(h)
+				self.trace.append(f'{st}: {type(e).__name__}')
+				self.ctx.count('seq:make fails')
+				self.what = self._failed(G['g'], X['s'], type(e).__name__)
+			else:
+				self.trace.append(f'{st}: ok')
+				self.ctx.count('seq:make gives a database')
+				self.what = self._opened(h, db, G['g'], X['s'], False, gslot=G, sslot=X)
+		elif op == 'observe':
+			h, p, q, form = a
+			if h not in self.handles:
+				return 'skipped'
+			H = self.handles[h]
+			self._use(f'handle{H["gen"]}', f'params{p}', f'queries{q}')
+			obs, self.what = self._observe(H['db'], H['g'], H['s'], p, q, form)
+			self.trace.append(f'{st}: {obs}')
+			if not self.what and obs[0] != H['pairs']:
+				self.what = f'the genomes / sig_indices of open database {h} changed: {H["pairs"]} -> {obs[0]}'
+			self.what = self.what or self._same(['observe', H['gen'], p, q, form], obs, f'observing open database {h}')
+		elif op == 'match':
+			g, attr, si, idf, af = a
+			if g not in self.gslots:
+				return 'skipped'
+			G = self.gslots[g]
+			self._use(f'gslot{g}:{G["src"]}', f'container{si}:{idf}')
+			idc = self._container(si, idf)
+			ids = [s[0] for s in case['sigfiles'][si]['sigs']]
+			inset = [r for r in case['gsets'][G['g']] if r[6]]
+			by_pk = {r[0]: r for r in inset}
+			owners = [[r[0] for r in inset if value_of(r, attr) is not None and same_id(value_of(r, attr), v)] for v in ids]
+			aa = getattr(Genome, attr) if af == 'attribute' else attr
+			out = {}
+
+			def pk_of(x):
+				return None if x is None else int(x.genome_id)
+			try:
+				gs, pos = genomes_by_id_subset(G['gset'], aa, idc)
+				out['subset'] = [[pk_of(x) for x in gs], [int(x) for x in pos]]
+			except Exception as e:     # noqa
+				out['subset'] = type(e).__name__
+			for strict in (False, True):
+				try:
+					out[f'by_id strict={strict}'] = [pk_of(x) for x in genomes_by_id(G['gset'], aa, idc, strict=strict)]
+				except Exception as e:     # noqa
+					out[f'by_id strict={strict}'] = type(e).__name__
+			self.trace.append(f'{st}: {out}')
+			self.what = judge_match(attr, ids, by_pk, owners, out) or self._same(['match', G['g'], attr, si, idf, af], out,
+			                                                                 'the matching functions')
+			if len(inset) >= 2 and len(ids) >= 2 and isinstance(out['subset'], list):
+				self.nontrivial = True
+		elif op == 'fresh':
+			dn, via, p, q, thread = a
+			d = self.dirs[dn]
+			self._use(f'dir{dn}', f'params{p}', f'queries{q}')
+			box = {}
+
+			def run():
+				cc = dict(seq_combined(case, d['g'], d['s'], p, q), via=via, names=SEQ_NAMES[d['names']])
+				o = open_db(cc, d['path'])
+				if o[0] == 'err':
+					box['o'] = o
+					return
+				try:
+					pairs, bad = self._handle_state(dict(db=o[1], g=d['g']))
+					obs, what = self._observe(o[1], d['g'], d['s'], p, q, 'params')
+					box['o'], box['obs'], box['what'] = o, obs, bad or what
+				finally:
+					_close(o[1])
+			if thread:
+				# SQLite connections must be finalised in the thread that made them: no automatic garbage collection while the
+				# worker runs (it would finalise sessions leaked by failed loads of the main thread there); where the load is
+				# expected to fail, the main thread's garbage is collected before and the worker's own at its end
+				import threading
+				import gc
+				cc0 = seq_combined(case, d['g'], d['s'])
+				fails = not oracle(cc0)['must_load']
+				if fails:
+					gc.collect()
+				gc.disable()
+
+				def guarded():
+					try:
+						try:
+							from gambit._cython.threads import omp_set_num_threads
+							omp_set_num_threads(1)
+						except Exception:
+							pass
+						run()
+					except BaseException as e:     # noqa
+						box['crash'] = f'{type(e).__name__}: {e}'
+					finally:
+						if fails:
+							gc.collect()
+				try:
+					t = threading.Thread(target=guarded)
+					t.start()
+					t.join(120)
+				finally:
+					gc.enable()
+				if t.is_alive():
+					box['crash'] = 'the worker thread did not finish within 120 s'
+			else:
+				run()
+			if 'crash' in box:
+				self.trace.append(f'{st}: {box["crash"]}')
+				self.what = f'loading and querying in a worker thread broke down: {box["crash"]}'
+			elif box['o'][0] == 'err':
+				self.ctx.count('seq:fresh fails' + (' (worker thread)' if thread else ''))
+				self.trace.append(f'{st}: {box["o"]}')
+				self.what = self._failed(d['g'], d['s'], box['o'][1])
+			else:
+				self.ctx.count('seq:fresh gives a database' + (' (worker thread)' if thread else ''))
+				self.trace.append(f'{st}: {box["obs"]}')
+				self.what = box['what'] or self._same(['fresh', d['g'], d['s'], d['names'], p, q], box['obs'], 'loading and querying the same files')
+		elif op == 'cli':
+			dn, fmt = a
+			d = self.dirs[dn]
+			self._use(f'dir{dn}')
+			self.what = self._cli(st, d, fmt)
+		elif op == 'close':
+			if a[0] not in self.handles:
+				return 'skipped'
+			self._close_handle(a[0])
+			self.trace.append(f'{st}: ok')
+		elif op == 'rewrite':
+			dn, gi, si, names = a
+			for h in [h for h, H in self.handles.items() if H.get('src') == dn]:
+				self._close_handle(h)
+			for g in [g for g, G in self.gslots.items() if G['src'] == dn]:
+				self._close_gslot(g)
+			for s in [s for s, X in self.sslots.items() if X['src'] == dn]:
+				self._close_sslot(s)
+			self.dirs[dn].update(g=gi, s=si, names=names)
+			self._write_dir(dn)
+			self.trace.append(f'{st}: ok')
+		elif op == 'badquery':
+			h, how, p, q = a
+			if h not in self.handles:
+				return 'skipped'
+			self._use(f'handle{self.handles[h]["gen"]}', f'params{p}', f'queries{q}')
+			r = self._bad_query(self.handles[h]["db"], how, self.params[p], self.queries[q])
+			self.ctx.count(f'seq:badquery {how}: {r}')
+			self.trace.append(f'{st}: {r}')
+		elif op == 'badmatch':
+			g, how, si = a
+			if g not in self.gslots:
+				return 'skipped'
+			G = self.gslots[g]
+			S = case['sigfiles'][si]
+			ids = [s[0] for s in S['sigs']]
+			try:
+				if how == 'strict-missing':
+					r = genomes_by_id(G['gset'], S['attr'], ids + [foreign_id(S['attr'], 777)], strict=True)
+				elif how == 'bad-attr':
+					r = genomes_by_id_subset(G['gset'], 'description', ids)
+				else:
+					r = genomes_by_id_subset(G['gset'], S['attr'], _RaisingIds(ids, len(ids) // 2))
+				self.trace.append(f'{st}: returned {len(r)} items')
+				self.ctx.count(f'seq:badmatch {how}: returned')
+			except Exception as e:     # noqa
+				self.trace.append(f'{st}: {type(e).__name__}')
+				self.ctx.count(f'seq:badmatch {how}: {type(e).__name__}')
+		elif op == 'badload':
+			self.what = self._bad_load(st, a[0], a[1])
+		else:
+			return 'skipped'
+		self.evaluated += 1
+		if not self.what:
+			bad = self.invariants()
+			if bad:
+				self.what = 'after this step ' + bad
+		return None
+
+	def _bad_query(self, db, how, P, Q):
+		from gambit.query import query
+		from gambit.metric import jaccarddist_matrix
+		try:
+			if how == 'iter-raises':
+				def it():
+					yield Q[0]
+					raise RuntimeError("the caller's iterator failed")
+				query(db, it(), P)
+			elif how == 'empty':
+				query(db, [], P)
+			elif how == 'float-query':      # fails in the middle of the matrix, after the first row has been computed
+				query(db, [Q[0], Q[0].astype(float), Q[0]], P)
+			elif how == 'inputs-short':
+				query(db, Q + Q, P, inputs=['only-one'])
+			else:
+				jaccarddist_matrix(Q, db.signatures, ref_indices=db.sig_indices, out=np.empty((len(Q) + 1, 1), np.float32), chunksize=P.chunksize)
+			return 'returned'
+		except Exception as e:     # noqa
+			return type(e).__name__
+
+	def _bad_load(self, st, dn, how):
+		d = self.dirs[dn]
+		copy = os.path.join(self.root, 'damaged')
+		shutil.rmtree(copy, ignore_errors=True)
+		shutil.copytree(d['path'], copy)
+		gname, sname = SEQ_NAMES[d['names']]
+		target = copy
+		if how == 'truncated-sigs':
+			size = os.path.getsize(os.path.join(copy, sname))
+			with open(os.path.join(copy, sname), 'r+b') as f:
+				f.truncate(size // 2)
+		elif how in ('junk-sigs', 'junk-genomes'):
+			with open(os.path.join(copy, sname if how == 'junk-sigs' else gname), 'w') as f:
+				f.write('not a database\n')
+		elif how == 'no-sigs':
+			os.remove(os.path.join(copy, sname))
+		elif how == 'two-sigs':
+			shutil.copyfile(os.path.join(copy, sname), os.path.join(copy, 'second.h5'))
+		elif how == 'wrong-genome-name':
+			return self._wrong_genome_name(st, d, copy, gname, sname)
+		else:
+			target = os.path.join(copy, 'nothing-here')
+		cc = dict(seq_combined(self.case, d['g'], d['s'], 0, 0), via='dir')
+		o = open_db(cc, target)
+		what = None
+		try:
+			if o[0] == 'ok':
+				if how in ('no-sigs', 'two-sigs', 'missing-dir', 'junk-sigs', 'junk-genomes'):
+					what = f'load_from_dir produced a database from a damaged directory ({how})'
+				else:      # what such a file still yields is not the property's business; the pairing is
+					pairs = [(int(k), int(g.genome_id)) for g, k in zip(o[1].genomes, o[1].sig_indices)]
+					what = judge_outcome(cc, oracle(cc), ('ok', pairs, None, None))
+		finally:
+			if o[0] == 'ok':
+				_close(o[1])
+			shutil.rmtree(copy, ignore_errors=True)
+		self.trace.append(f'{st}: {o[0] if o[0] == "ok" else o}')
+		self.ctx.count(f'seq:badload {how}: ' + ('gives a database' if o[0] == 'ok' else o[1]))
+		return what
+
+	def _wrong_genome_name(self, st, d, copy, gname, sname):
+		"""ReferenceDatabase.load is given the name of a genome file that does not exist (the other extension); it must fail,
+		and the directory must load afterwards exactly as it would have before"""
+		from gambit.db import ReferenceDatabase
+		stem, ext = os.path.splitext(gname)
+		wrong = stem + ('.db' if ext == '.gdb' else '.gdb')
+		was = dir_print(copy)
+		try:
+			db = ReferenceDatabase.load(os.path.join(copy, wrong), os.path.join(copy, sname))
+			_close(db)
+			first = 'gives a database'
+		except Exception as e:     # noqa
+			first = type(e).__name__
+		now = dir_print(copy)
+		cc = dict(seq_combined(self.case, d['g'], d['s'], 0, 0), via='dir')
+		o = open_db(cc, copy)
+		what = None
+		try:
+			if first == 'gives a database':
+				what = f'ReferenceDatabase.load produced a database from the genome file {wrong!r}, which does not exist'
+			elif o[0] == 'ok':
+				what = self._observe(o[1], d['g'], d['s'], 0, 0, 'params')[1]
+			else:
+				what = self._failed(d['g'], d['s'], o[1])
+			if first != 'gives a database' and now == sorted(was + [[wrong, EMPTY_SHA1]]):
+				# KNOWN DEFECT (module docstring, repo_fixes/C04-load-creates-missing-genome-file.diff): the failed call created an
+				# empty file under the wrong name; the directory now holds two genome files and no longer loads
+				self.ctx.count('seq:KNOWN-DEFECT a failing load created the missing genome file' +
+				               (', the directory no longer loads' if what else '') + '; not judged')
+				what = None
+			elif not what and now != was:
+				what = f'a failing ReferenceDatabase.load changed the directory: {was} -> {now}'
+		finally:
+			if o[0] == 'ok':
+				_close(o[1])
+			shutil.rmtree(copy, ignore_errors=True)
+		self.trace.append(f'{st}: load({wrong!r}, ...) {first}, directory afterwards {[x[0] for x in now]}, load_from_dir then {o[0] if o[0] == "ok" else o}')
+		self.ctx.count(f'seq:badload wrong-genome-name: {first}, load_from_dir afterwards ' + ('gives a database' if o[0] == 'ok' else 'fails'))
+		return what
+
+	def _cli(self, st, d, fmt):
+		from click.testing import CliRunner
+		import gambit.cli
+		cc = seq_combined(self.case, d['g'], d['s'])
+		orc = oracle(cc)
+		_S['n'] += 1
+		out = os.path.join(_S['root'], f'out{_S["n"]}.{fmt}')
+		gname, sname = SEQ_NAMES[d['names']]
+		r = None
+		try:
+			r = CliRunner().invoke(gambit.cli.cli, ['-d', d['path'], 'query', '-f', fmt, '-o', out, '--no-progress', '-s', _S['qfile']])
+			data = cli_entries(fmt, out) if r.exit_code == 0 else None
+		except Exception as e:     # noqa
+			data = f'{type(e).__name__}: {e}'
+		finally:
+			if os.path.exists(out):
+				os.remove(out)
+		self.trace.append(f'{st}: {data if isinstance(data, list) else "error exit"}')
+		self.ctx.count('seq:cli ' + ('results' if isinstance(data, list) else 'error exit'))
+		what = judge_cli(cc, orc, data, _S['table'], [gname], [sname], r)
+		if not what and isinstance(data, list) and nontrivial_load(cc, orc):
+			self.nontrivial = True
+		return what or self._same(['cli', d['g'], d['s'], d['names'], fmt], data if isinstance(data, list) else 'error', 'the same command line')
+
+	def finish(self):
+		"""results handed out earlier still say what they said"""
+		for text, extract, was in self.kept:
+			try:
+				now = extract()
+			except Exception:     # noqa: e.g. an ORM object whose session is gone; not judged
+				self.ctx.count('seq:earlier result could not be read again')
+				continue
+			if now != was:
+				return f'{text} changed after later calls: {was} -> {now}'
+		return None
+
+
+def k_seq(ctx, cases):
+	"""sequence cases (see the comment block above): every step is judged by the property predicate of the single-call
+	kinds on the load case that the genome database and the signature collection it uses make together; after every step the
+	caller's objects, the open databases and the files must be what they were; the same call must give the same result;
+	results handed out earlier must not change."""
+	for c in cases:
+		if not seq_validate(c):
+			ctx.count('invalid-case-skipped')
+			continue
+		run = _SeqRun(ctx, c)
+		where = None
+		try:
+			for n, st in enumerate(c['steps']):
+				if run.step(st) == 'skipped':
+					ctx.count('seq:step-skipped (slot not open)')
+					continue
+				ctx.count('seq:step:' + st[0])
+				if run.what:
+					where = f'step {n} {st}'
+					break
+			if not run.what:
+				run.what = run.finish()
+				where = 'at the end'
+		except Exception as e:     # noqa: the harness could not run the script
+			import traceback
+			ctx.broke('seq: harness could not run the case', f'{c}: {type(e).__name__}: {e} {traceback.format_exc()[-600:]}')
+			run.what = None
+		finally:
+			run.close_all()
+		reused = sum(1 for v in run.used.values() if v >= 2)
+		ctx.case(c, nontrivial=run.evaluated >= 2 and reused >= 1 and run.nontrivial)
+		ctx.count('seq:shared objects used by >= 2 steps', reused)
+		if run.what:
+			ctx.violation('seq', c, f'{where}: {run.what}', impl=run.trace, spec='every step judged on its own genome database + signature collection; '
+			              "caller's objects, open databases and files unchanged; same call, same result")
+
+
+KINDS = {'load': k_load, 'dir': k_dir, 'cli': k_cli, 'multi': k_multi, 'match': k_match, 'seq': k_seq}
 
 
 # ------------------------------------------------------------------------------------------------
@@ -2427,6 +3405,229 @@ def gen_cli_forms(ctx, rng):
 	ctx.count('stream:cli-forms', n_c)
 
 
+# ---- generator of sequence cases ---------------------------------------------------------------------
+
+def seq_universe(rng):
+	"""the shared part of a sequence case: L logical genomes (fixed identifier values); 2-3 genome databases holding all of
+	them under their own primary keys with genome sets of DIFFERENT sizes; 2-3 signature collections (the first covers
+	every genome, the others the union of some of the genome sets, now and then less one genome or with a repeated
+	identifier), each with its own id_attr, order, padding, storage form and its own assignment of pool signatures;
+	directories pairing them; two QueryParams descriptions (one reports more genomes than the small database has); two query
+	lists"""
+	L = rng.choice([5, 6, 7, 8])
+	logical = [[f'key/{j + 1}', f'GCA_{101 + j}.1', f'GCF_{101 + j}.1', 5001 + j] for j in range(L)]
+	n_g, n_s = rng.choice([2, 2, 3]), rng.choice([2, 2, 3])
+	sizes = rng.sample([2, 3, 4, L], n_g)
+	gsets, members = [], []
+	for t in range(n_g):
+		pks = rng.sample(range(1, 3 * L + 1), L)
+		mem = set(rng.sample(range(L), sizes[t]))
+		rows = [[pks[j]] + list(logical[j]) + ['assembly', j in mem] for j in range(L)]
+		if rng.random() < 0.15:      # a genome of the set without value for one of the other attributes
+			rows[rng.choice(sorted(mem))][rng.choice([2, 3, 4])] = None
+		rows.sort()
+		gsets.append(rows)
+		members.append(mem)
+	sigfiles = []
+	attrs = rng.sample(ATTRS, 4)
+	for b in range(n_s):
+		attr = attrs[b] if rng.random() < 0.8 else attrs[0]
+		col = ATTRS.index(attr)
+		if b == 0:
+			cover = set(range(L))
+		else:
+			cover = set().union(*rng.sample(members, rng.randint(1, n_g)))
+			if rng.random() < 0.3 and len(cover) > 1:
+				cover.discard(rng.choice(sorted(cover)))
+		pool = rng.sample(range(NPOOL), L)
+		spare = [x for x in range(NPOOL) if x not in pool]
+		sigs = [[logical[j][col], pool[j]] for j in sorted(cover)]
+		rng.shuffle(sigs)
+		sigs = pad_randomly(rng, sigs, [foreign_id(attr, j) for j in range(rng.choice([0, 1, 3]))], NPOOL)
+		for x in sigs:
+			if x[1] == NPOOL - 1 and x[1] in pool and not any(same_id(x[0], logical[j][col]) for j in range(L)):
+				x[1] = rng.choice(spare)
+		if rng.random() < 0.1:
+			sigs.insert(rng.randint(0, len(sigs)), [rng.choice(sigs)[0], rng.choice(spare)])
+		if attr == 'ncbi_id':
+			store = rng.choice([None, 'i8', 'u8', '>i8'])
+		else:
+			store = rng.choice([None, 'O', 'U', 'S'])
+		sigfiles.append(dict(attr=attr, sigs=sigs, ids_as=store, sig_dtype=rng.choice((None,) + SIG_DTYPES)))
+	n_d = rng.choice([2, 3])
+	dirs = [dict(g=k % n_g, s=0 if k == 0 else rng.randrange(n_s), names=rng.randrange(len(SEQ_NAMES))) for k in range(n_d)]
+	params = [dict(chunksize=rng.choice([None, 1, 2]), report=rng.choice([3, L, 10]), strict=False),
+	          dict(chunksize=rng.choice([1, 3, 1000]), report=rng.choice([1, 2]), strict=rng.random() < 0.3)]
+	queries = [rng.sample(range(NQUERY), 2), [rng.randrange(NQUERY)]]
+	return dict(gsets=gsets, sigfiles=sigfiles, dirs=dirs, params=params, queries=queries, steps=[])
+
+
+def seq_idform(rng, case, si):
+	ints = isinstance(case['sigfiles'][si]['sigs'][0][0], int)
+	return rng.choice(['list', 'tuple', 'npscalars', 'strided'] + (['i8'] if ints else ['O', 'U']))
+
+
+def seq_random_steps(rng, u):
+	"""a random script: opened things are used again and again, failing calls in between"""
+	n_d, n_g, n_s = len(u['dirs']), len(u['gsets']), len(u['sigfiles'])
+	steps = []
+	handles, gslots, sslots = set(), set(), set()
+	n_cli = 0
+
+	def pq():
+		return rng.randrange(len(u['params'])), rng.randrange(len(u['queries']))
+	for _ in range(rng.randint(4, 9)):
+		moves = ['load'] * 3 + ['slots'] * 2 + ['fresh'] * 2 + ['badload', 'rewrite']
+		if handles:
+			moves += ['observe'] * 6 + ['badquery'] * 2 + ['close']
+		if gslots and sslots:
+			moves += ['make'] * 4
+		if gslots:
+			moves += ['match'] * 3 + ['badmatch']
+		if n_cli < 2:
+			moves += ['cli']
+		m = rng.choice(moves)
+		if m == 'load':
+			h = rng.randrange(3)
+			steps.append(['load', h, rng.randrange(n_d), rng.choice(SEQ_VIAS), rng.random() < 0.3])
+			handles.add(h)
+		elif m == 'slots':
+			k = rng.random()
+			if k < 0.45:
+				g = rng.randrange(2)
+				steps.append(['gset', g, rng.randrange(n_d)])
+				gslots.add(g)
+			elif k < 0.75:
+				s = rng.randrange(2)
+				steps.append(['sigs', s, rng.randrange(n_d)])
+				sslots.add(s)
+			else:
+				s, si = rng.randrange(2), rng.randrange(n_s)
+				steps.append(['memsigs', s, si, rng.choice(MEM_SIGS), seq_idform(rng, u, si)])
+				sslots.add(s)
+		elif m == 'make':
+			h = rng.randrange(3)
+			steps.append(['make', h, rng.choice(sorted(gslots)), rng.choice(sorted(sslots)), rng.random() < 0.3])
+			handles.add(h)
+		elif m == 'observe':
+			steps.append(['observe', rng.choice(sorted(handles))] + list(pq()) + [rng.choice(SEQ_QFORMS)])
+		elif m == 'match':
+			si = rng.randrange(n_s)
+			steps.append(['match', rng.choice(sorted(gslots)), rng.choice([u['sigfiles'][si]['attr']] * 2 + ATTRS), si, seq_idform(rng, u, si),
+			              rng.choice(['str', 'attribute'])])
+		elif m == 'fresh':
+			steps.append(['fresh', rng.randrange(n_d), rng.choice(SEQ_VIAS)] + list(pq()) + [rng.random() < 0.4])
+		elif m == 'cli':
+			steps.append(['cli', rng.randrange(n_d), rng.choice(CLI_FMTS)])
+			n_cli += 1
+		elif m == 'close':
+			h = rng.choice(sorted(handles))
+			steps.append(['close', h])
+			handles.discard(h)
+		elif m == 'rewrite':
+			dn = rng.randrange(n_d)
+			steps.append(['rewrite', dn, rng.randrange(n_g), rng.randrange(n_s), rng.randrange(len(SEQ_NAMES))])
+			if rng.random() < 0.8:      # and the same path is read again
+				steps.append(rng.choice([['load', rng.randrange(3), dn, rng.choice(SEQ_VIAS), False], ['fresh', dn, rng.choice(SEQ_VIAS)] + list(pq()) + [False]]))
+				if steps[-1][0] == 'load':
+					handles.add(steps[-1][1])
+		elif m == 'badquery':
+			steps.append(['badquery', rng.choice(sorted(handles)), rng.choice(SEQ_BADQ)] + list(pq()))
+		elif m == 'badmatch':
+			steps.append(['badmatch', rng.choice(sorted(gslots)), rng.choice(SEQ_BADM), rng.randrange(n_s)])
+		elif m == 'badload':
+			steps.append(['badload', rng.randrange(n_d), rng.choice(SEQ_BADL)])
+	# what is open at the end is looked at once more
+	for h in sorted(handles):
+		steps.append(['observe', h] + list(pq()) + ['params'])
+	return steps
+
+
+def seq_templates(rng, u):
+	"""scripts aimed at one kind of hidden state each, every one in both orders of its two databases; A = directory 0 (the
+	signature collection that covers everything), B = directory 1"""
+	n_s = len(u['sigfiles'])
+	s1 = u['dirs'][1]['s']
+	other_s = (u['dirs'][0]['s'] + 1) % n_s
+	other_g = (u['dirs'][0]['g'] + 1) % len(u['gsets'])
+	out = []
+	for a, b in ((0, 1), (1, 0)):
+		# one params object and one query list for databases of different size
+		out.append(('params-object-for-two-databases',
+		            [['load', 0, a, 'dir', False], ['load', 1, b, 'load', False], ['observe', 0, 0, 0, 'params'], ['observe', 1, 0, 0, 'params'],
+		             ['observe', 0, 0, 0, 'params'], ['observe', 1, 1, 0, 'inputs'], ['observe', 0, 1, 0, 'inputs'], ['observe', 1, 0, 0, 'params']]))
+		# one signature object for two genome sets
+		out.append(('signature-object-for-two-genome-sets',
+		            [['sigs', 0, 0], ['gset', 0, a], ['gset', 1, b], ['make', 0, 0, 0, False], ['make', 1, 1, 0, True], ['observe', 0, 0, 0, 'params'],
+		             ['observe', 1, 0, 0, 'params'], ['observe', 0, 0, 0, 'params']]))
+		out.append(('in-memory-signature-object-for-two-genome-sets',
+		            [['memsigs', 0, 0, rng.choice(MEM_SIGS), seq_idform(rng, u, 0)], ['gset', 0, a], ['gset', 1, b], ['make', 0, 0, 0, False],
+		             ['make', 1, 1, 0, False], ['observe', 1, 0, 1, 'kw'], ['observe', 0, 0, 1, 'kw'], ['make', 2, 0, 0, False], ['observe', 2, 1, 0, 'params']]))
+		# one genome set for two signature objects (other id_attr, other order)
+		out.append(('genome-set-for-two-signature-objects',
+		            [['gset', 0, a], ['sigs', 0, a], ['memsigs', 1, other_s, 'list', seq_idform(rng, u, other_s)], ['make', 0, 0, 0, False],
+		             ['make', 1, 0, 1, False], ['observe', 0, 0, 0, 'params'], ['observe', 1, 0, 0, 'params'], ['make', 2, 0, 0, False],
+		             ['observe', 2, 0, 0, 'params']]))
+		# the matching functions: one genome set, several attributes and containers; one container, several genome sets
+		out.append(('matching-functions-reused',
+		            [['gset', 0, a], ['gset', 1, b], ['match', 0, u['sigfiles'][0]['attr'], 0, seq_idform(rng, u, 0), 'str'],
+		             ['match', 0, u['sigfiles'][other_s]['attr'], other_s, 'list', 'attribute'], ['match', 1, u['sigfiles'][0]['attr'], 0, 'list', 'str'],
+		             ['match', 0, u['sigfiles'][0]['attr'], 0, 'list', 'str'], ['match', 1, u['sigfiles'][other_s]['attr'], other_s, 'list', 'str'],
+		             ['match', 0, u['sigfiles'][other_s]['attr'], other_s, 'list', 'attribute']]))
+		# calls that fail part-way, then the good call again on the same objects
+		out.append(('failed-calls-in-between',
+		            [['load', 0, a, 'ctor', False], ['observe', 0, 0, 0, 'params'], ['badquery', 0, 'float-query', 0, 0], ['observe', 0, 0, 0, 'params'],
+		             ['badload', b, 'junk-sigs'], ['badquery', 0, 'out-shape', 0, 0], ['load', 1, b, 'dir', False], ['observe', 1, 0, 0, 'params'],
+		             ['badload', a, 'truncated-sigs'], ['badload', b, 'wrong-genome-name'], ['observe', 0, 0, 0, 'params'], ['fresh', b, 'dir', 0, 0, False]]))
+		out.append(('failed-constructions-in-between',
+		            [['sigs', 0, a], ['gset', 0, a], ['gset', 1, b], ['memsigs', 1, other_s, 'array', 'list'], ['make', 0, 1, 1, False], ['make', 0, 0, 1, False],
+		             ['badmatch', 0, 'strict-missing', 0], ['badmatch', 1, 'ids-raise', 0], ['make', 1, 0, 0, False], ['observe', 1, 0, 0, 'params'],
+		             ['make', 2, 1, 0, False], ['observe', 2, 0, 0, 'params']]))
+		# the files of a directory replaced between two loads (other genome set, other collection, other file names)
+		out.append(('directory-rewritten-between-loads',
+		            [['load', 0, a, 'dir', False], ['observe', 0, 0, 0, 'params'], ['fresh', a, 'dir', 0, 0, False], ['cli', a, 'json'],
+		             ['rewrite', a, other_g, s1, (u['dirs'][a]['names'] + 1) % len(SEQ_NAMES)], ['load', 0, a, 'dir', False], ['observe', 0, 0, 0, 'params'],
+		             ['fresh', a, 'load', 0, 0, False], ['cli', a, 'json'], ['rewrite', a, u['dirs'][b]['g'], 0, u['dirs'][a]['names']],
+		             ['fresh', a, 'ctor', 0, 0, False], ['cli', a, 'json']]))
+		# worker threads next to databases open in the main thread
+		out.append(('worker-threads',
+		            [['load', 0, a, 'dir', False], ['fresh', a, 'dir', 0, 0, True], ['fresh', b, 'load', 0, 0, True], ['observe', 0, 0, 0, 'params'],
+		             ['fresh', a, 'ctor', 0, 0, True], ['fresh', b, 'dir', 1, 1, False], ['fresh', b, 'dir', 1, 1, True]]))
+		# the command line twice, a failing directory in between
+		out.append(('command-line-repeated',
+		            [['cli', a, 'json'], ['cli', b, 'archive'], ['badload', a, 'no-sigs'], ['cli', a, 'json'], ['cli', b, 'archive']]))
+	return out
+
+
+def gen_seq(ctx, rng):
+	"""sequences of calls over shared objects (see STATE AND ALIASING in the module docstring)"""
+	n_q = 0
+	for _ in range(ctx.pick(2, 24)):
+		# for the aimed scripts: both directories load, every genome set loads with collection 0, the two databases differ in size
+		for attempt in range(40):
+			u = seq_universe(rng)
+			combos = [(d['g'], d['s']) for d in u['dirs'][:2]] + [(g, 0) for g in range(len(u['gsets']))]
+			if (u['dirs'][0]['g'] != u['dirs'][1]['g'] and seq_validate(u)
+			        and all(oracle(seq_combined(u, g, s))['must_load'] for g, s in combos)):
+				break
+		else:
+			ctx.count('seq-generator-rejected')
+			continue
+		for name, steps in seq_templates(rng, u):
+			ctx.count('seq:template:' + name)
+			yield 'seq', dict(u, steps=steps)
+			n_q += 1
+	for _ in range(ctx.pick(70, 1500)):
+		u = seq_universe(rng)
+		u['steps'] = seq_random_steps(rng, u)
+		if not seq_validate(u):
+			ctx.count('seq-generator-rejected')
+			continue
+		yield 'seq', u
+		n_q += 1
+	ctx.count('stream:sequences-over-shared-objects', n_q)
+
+
 NAME_STEMS = ['a', 'b', 'x.tar', 'a.', '.hid', '', 'é', 'a b', '.']
 NAME_EXTS = ['.gdb', '.db', '.gs', '.h5', '.GDB', '.GS', '.gdb.', '.gsx', '', '.txt', '.db.bak', '.H5', '.g.s']
 
@@ -2620,6 +3821,7 @@ def generate(ctx):
 	yield from gen_dir_special(ctx, rng)
 	yield from gen_cli_forms(ctx, rng)
 	yield from gen_db_layouts(ctx, rng)
+	yield from gen_seq(ctx, rng)
 
 	ctx.exhaustive = True
 	ctx.extra['exhaustive_scope'] = (f'load: for each of the 4 identifier attributes, every order of the signatures of <= {N} genomes x '
